@@ -52,6 +52,11 @@ def run_one(tape, opts):
     result = ExtendedToStreamDecorator(CopyStreamResult([tap, StreamToExtendedDecorator(final)]))
     rep = pl.Reporter(result, hist)
     rep.one_shot_details = tape.chance("config", 1, 3, "one-shot-detail-payloads")
+    # a second converter pair alive at the same time, fed between the main one's calls
+    decoy = None
+    if tape.chance("config", 1, 3, "decoy-pipeline"):
+        decoy = pl.Decoy(lambda w, b: ExtendedToStreamDecorator(CopyStreamResult(
+            [TStream(w, "tap"), StreamToExtendedDecorator(TExt(w, "final"))])))
     model = pl.TagModel()
     tests = []
     override = None
@@ -71,6 +76,8 @@ def run_one(tape, opts):
                 break
             if c is None:
                 break
+            if decoy is not None:
+                decoy.step()
             hi = clock.peek()
             model.apply(c)
             if c[0] == "time":
@@ -84,6 +91,9 @@ def run_one(tape, opts):
                                  t1=("explicit", override) if override is not None else ("clock", lo, hi))
             elif c[0] == "stopTest":
                 tests[-1]["complete"] = True
+        if decoy is not None:
+            decoy.finish(out, "E2S->S2E")
+            out.probe("decoy-pipeline")
     finally:
         vclock.uninstall()
     if not raised:
